@@ -548,22 +548,20 @@ impl VOpTracker {
     self.t.new_op_id(fd, ty, payload) - Self::BASE
   }
 
-  /// the CloseFd completion for `fd` has arrived: what is taken out of the table (and dropped) there and then
-  pub fn close_fd(&mut self, fd: i32) -> Vec<String> {
-    let mut v: Vec<String> = self.t.remove_ops_for_fd(fd).iter().map(Self::describe).collect();
-    v.sort();
-    v
+  /// the CloseFd completion for `fd` has arrived
+  pub fn close_fd(&mut self, fd: i32) {
+    self.t.orphan_ops_for_fd(fd)
   }
 
-  /// the (final) completion of operation `key` has arrived
-  pub fn complete(&mut self, key: u64) -> Option<String> {
-    self.t.take_op_details(key + Self::BASE).map(|d| Self::describe(&d))
+  /// a completion under `key` has arrived (`notification`: it is the notification of a zero-copy send) and ends its entry
+  pub fn complete(&mut self, key: u64, notification: bool) -> Option<String> {
+    self.t.take_for_completion(key + Self::BASE, notification).map(|d| Self::describe(&d))
   }
 
   /// the first completion of a zero-copy send (more to come): the entry waits for the notification under the same key
   pub fn await_notification(&mut self, key: u64) -> Option<String> {
     use crate::io_uring_backend::worker::verif_internal_op_tracker::{InternalOpDetails, InternalOpPayload as P, InternalOpType as T};
-    let d = self.t.take_op_details(key + Self::BASE)?;
+    let d = self.t.take_for_completion(key + Self::BASE, false)?;
     let out = Self::describe(&d);
     if let P::SendZeroCopy { send_buf_id, .. } | P::SendZeroCopyLeased { send_buf_id } = d.payload {
       self.t.reinsert_for_notification(
@@ -574,21 +572,15 @@ impl VOpTracker {
     Some(out)
   }
 
-  /// every entry, ascending by key: (key, description, waiting for a zero-copy notification?). A notification entry whose
-  /// key has meanwhile been given to a new operation cannot be looked up any more: it reads `shadowed`.
+  /// every entry, ascending by key: (key, description, waiting for a zero-copy notification?)
   pub fn state(&self) -> Vec<(u64, String, bool)> {
     let slab_len = self.t.op_to_details.len();
     let ids = self.t.all_op_ids();
     let mut v: Vec<(u64, String, bool)> = Vec::new();
     for (i, ud) in ids.iter().enumerate() {
       let key = *ud - Self::BASE;
-      if i < slab_len {
-        v.push((key, self.t.op_to_details.get(key as usize).map(Self::describe).unwrap_or_default(), false));
-      } else if self.t.op_to_details.contains(key as usize) {
-        v.push((key, "shadowed".into(), true));
-      } else {
-        v.push((key, self.t.get_op_details(*ud).map(Self::describe).unwrap_or_default(), true));
-      }
+      let waiting = i >= slab_len;
+      v.push((key, self.t.get_for_completion(*ud, waiting).map(Self::describe).unwrap_or_default(), waiting));
     }
     v.sort();
     v
